@@ -309,7 +309,7 @@ func FromStat(st *types.Stat) Entry {
 
 // Mask selects the fields a comparison demands.
 type Mask struct {
-	Perm, Owner, Mtime, DirMtime, Xattrs, DirXattrs, SymlinkXattrs, Links, Data, Rdev, Target bool
+	Perm, Owner, Mtime, DirMtime, Xattrs, DirXattrs, SymlinkXattrs, SpecialXattrs, Links, Data, Rdev, Target bool
 	// MtimeSec compares mtimes truncated to seconds.
 	MtimeSec bool
 	// DirMtimeOnly, if non-nil, restricts the directory mtime comparison to
@@ -399,7 +399,7 @@ func diffEntry(w, g *Entry, m Mask) string {
 	case File:
 		xa = m.Xattrs
 	default:
-		xa = m.Xattrs
+		xa = m.SpecialXattrs
 	}
 	if xa && !xattrEq(w.Xattrs, g.Xattrs) {
 		d = append(d, "xattrs")
